@@ -29,8 +29,13 @@ GXX = shutil.which("g++") or "g++"
 
 
 def set_repo(path):
-    global REPO
+    """Analyse another tree (self-tests, seeded mutants).  Evidence of such a run never
+    lands in /verif/evidence, which only ever describes /repo itself."""
+    global REPO, EVIDENCE, REPLAYS
     REPO = os.path.abspath(path)
+    if REPO != "/repo":
+        EVIDENCE = os.path.join(BUILD, "alt_evidence")
+        REPLAYS = os.path.join(EVIDENCE, "replays")
 
 
 def include_flags():
@@ -213,7 +218,19 @@ class Report:
     def finish(self):
         known = load_known_findings()
         new, listed = [], []
+        # the same source construct is usually seen once per instantiation / driver TU:
+        # report it once (first site), remember how many instances agreed
+        uniq, dups = {}, {}
         for f in self.findings:
+            k = (f.rule, f.file, f.line, f.message) if f.file and f.line else (f.rule, f.site)
+            if k in uniq:
+                dups[k] = dups.get(k, 1) + 1
+                continue
+            uniq[k] = f
+        for k, f in uniq.items():
+            if k in dups:
+                f.detail["instances"] = dups[k]
+        for f in uniq.values():
             (listed if f.key in known else new).append(f)
         wall = time.time() - self.t0
         ensure_dir(EVIDENCE)
